@@ -10,7 +10,7 @@ from pyvc_spec import *
 from spec_cfdp import fss, fss_len, with_crc_trailer
 from spec_cfdp_dir_b import directive_pdu, directive_body, nak_params, fss_fits, crc_len, TOWARDS_RECEIVER, TOWARDS_SENDER
 from cfdp_common import mk_conf, ids_in_range, W
-from spacepackets.cfdp.defs import Direction, TransmissionMode, CrcFlag, LargeFileFlag, SegmentationControl
+from spacepackets.cfdp.defs import Direction, TransmissionMode, CrcFlag, LargeFileFlag, SegmentationControl, UnsupportedCfdpVersion
 from spacepackets.cfdp.exceptions import InvalidCrc
 from spacepackets.cfdp.pdu.nak import NakPdu
 
@@ -85,6 +85,18 @@ def dec_enc_step(init: PairList, a: Int, b: Int, large: Bool):
     ensures("base", dec_reqs(enc_reqs([], large), large) == [])
 
 
+@lemma(["C06"], "dec_reqs/length")
+def dec_length_step(region: Bytes, large: Bool):
+    """2 * fss_len * len(dec_reqs(R)) == |R| for a region holding whole requests (induction on |R|)"""
+    w = fss_len(large)
+    requires(len(region) % (2 * w) == 0)
+    unfold(dec_reqs, region, large)
+    if len(region) >= 2 * w:
+        shorter = region[0:len(region) - 2 * w]
+        requires(2 * w * len(dec_reqs(shorter, large)) == len(shorter))              # induction hypothesis
+    ensures("step", 2 * w * len(dec_reqs(region, large)) == len(region))
+
+
 # ---------------------------------------------------------------------------------------------
 # loop contracts for the two loops of nak.py
 # ---------------------------------------------------------------------------------------------
@@ -104,7 +116,7 @@ def unpack_loop(data, current_idx, segment_requests, end_of_segment_reqs, struct
     base = nak_pdu.pdu_file_directive.header_len + 2 * w
     invariant("range", both(base <= current_idx, current_idx <= end_of_segment_reqs, end_of_segment_reqs <= len(data)))
     invariant("aligned", both((current_idx - base) % (2 * w) == 0, (end_of_segment_reqs - base) % (2 * w) == 0))
-    unfold(dec_reqs, data[base:current_idx + 2 * w], large)
+    unfold(dec_reqs, data[base:current_idx], large)
     invariant("decoded", segment_requests == dec_reqs(data[base:current_idx], large))
     decreases(end_of_segment_reqs - current_idx)
 
@@ -139,3 +151,56 @@ def nak_pack_any(mode: EnumOf(TransmissionMode), crc: EnumOf(CrcFlag), large: En
         ensures("lengths", both(pdu.packet_len == len(raw), pdu.pdu_file_directive.pdu_data_field_len == len(raw) - (4 + 2 * we + ws)))
         ensures("crc-residue", implies(crc == CrcFlag.WITH_CRC, crc16(raw) == 0))
         ensures("caller-config-untouched", same_state(conf, snap))
+
+
+def hdr_len_of(data):
+    """header length declared by octet 3 of a buffer (table 5-1)"""
+    return 4 + 2 * (bits(data[3], 6, 4) + 1) + bits(data[3], 2, 0) + 1
+
+
+def nak_unpack_any(data, c0, c1):
+    """NakPdu.unpack on an ARBITRARY octet string (no bound on the declared length / number of requests)"""
+    if len(data) >= 4:
+        requires(either(bits(data[3], 6, 4) == c0, bits(data[3], 6, 4) == c1))
+    o = outcome(NakPdu.unpack, data)
+    ensures("raises-only", o.ok or o.raised(ValueError, InvalidCrc, UnsupportedCfdpVersion))
+    if o.ok:
+        g = o.value
+        hl = hdr_len_of(data)
+        n = hl + data[1] * 256 + data[2]
+        crc = bits(data[0], 1, 1)
+        lg = bits(data[0], 0, 0) == 1
+        f = fss_len(lg)
+        ensures("declared-length", n == len(data))      # a NAK PDU followed by surplus octets is refused
+        ensures("crc-gate", implies(crc == 1, crc16(data[0:n]) == 0))
+        ensures("directive-code", data[hl] == 8)
+        ensures("scope", both(g.start_of_scope == from_be(data[hl + 1:hl + 1 + f]), g.end_of_scope == from_be(data[hl + 1 + f:hl + 1 + 2 * f])))
+        end = n - 2 * crc
+        base = hl + 1 + 2 * f
+        ensures("whole-requests", both(base <= end, (end - base) % (2 * f) == 0))
+        unfold(dec_reqs, data[base:end], lg)
+        ensures("requests", g.segment_requests == dec_reqs(data[base:end], lg))
+        use_lemma("dec_reqs/length", 2 * f * len(dec_reqs(data[base:end], lg)) == end - base)
+        ensures("reported-length", g.packet_len == n)
+
+
+NAK_ANY = dict(verifies=[NAKQ + "NakPdu.unpack"], lia_branch=True, shards=8, shard_depth=14)
+
+
+@obligation(["C06", "C09", "C10", "C04"], "NakPdu.unpack/any-list/idw1-2", **NAK_ANY)
+def nak_unpack_any_12(data: Bytes):
+    nak_unpack_any(data, 0, 1)
+
+
+@obligation(["C06", "C09", "C10", "C04"], "NakPdu.unpack/any-list/idw4-8", **NAK_ANY)
+def nak_unpack_any_48(data: Bytes):
+    nak_unpack_any(data, 3, 7)
+
+
+@obligation(["C06", "C09", "C10", "C04"], "NakPdu.unpack/any-list/other-width-codes", **NAK_ANY)
+def nak_unpack_any_other(data: Bytes):
+    if len(data) >= 4:
+        requires(not either(bits(data[3], 6, 4) == 0, bits(data[3], 6, 4) == 1, bits(data[3], 6, 4) == 3, bits(data[3], 6, 4) == 7))
+    o = outcome(NakPdu.unpack, data)
+    ensures("raises-only", o.ok or o.raised(ValueError, InvalidCrc, UnsupportedCfdpVersion))
+    ensures("refused", not o.ok)
